@@ -36,7 +36,7 @@ COMPONENTS = {
 }
 PROBES = ["subscribe-duplicate", "unsubscribe-all", "node-replaced", "node-removed", "frame-for-dead-node", "error-frame", "remote-frame",
           "duplicate-frame", "extended-id-sent", "extended-id-received", "extra-sdo-channel", "scanner-reset", "node-re-added",
-          "unsubscribe-all-on-node-id", "removal-refused-after-application-unsubscribed-node-id", "subscriptions-changed-during-dispatch"]
+          "unsubscribe-all-on-node-id", "removal-refused-after-application-unsubscribed-node-id", "subscriptions-changed-during-dispatch", "listeners-stopped-and-reused"]
 # probes that mark an injected disturbance; the runner also counts them as fired faults in the evidence
 FAULT_PROBES = {'duplicate-frame': 'duplicate-frame', 'error-frame': 'error-frame', 'frame-for-dead-node': 'frame-for-removed-node', 'remote-frame': 'remote-frame'}
 
@@ -404,7 +404,7 @@ def scenario(ctx):
     for i in range(nops):
         with ctx.span("op"):
             op = ctx.weighted(((10, "rx"), (5, "sub"), (3, "unsub"), (1, "unsub-all"), (3, "add"), (2, "del"), (2, "tx"), (1, "txp"),
-                               (2, "rx-special"), (1, "scan-reset"), (1, "re-add"), (1, "unsub-all-node"), (2, "arm")), "op")
+                               (2, "rx-special"), (1, "scan-reset"), (1, "re-add"), (1, "unsub-all-node"), (2, "arm"), (1, "reconnect")), "op")
             if op == "rx":
                 can_id = _pick_id(ctx, w)
                 _receive(ctx, w, can_id, _frame_for(ctx, w, can_id))
@@ -456,6 +456,16 @@ def scenario(ctx):
                     ctx.op("arm", "cb%d" % k, what_, "cb%d" % other, hex(cid))
                     _receive(ctx, w, cid, _frame_for(ctx, w, cid))
                     w.armed = {}
+            elif op == "reconnect":
+                # Network.disconnect() stops python-can's Notifier, which calls stop() on every listener; a later connect()
+                # hands the SAME listener objects to a new Notifier.  Emulated at that contract (no real Notifier thread here):
+                # the listeners are told to stop, afterwards frames are fed to them again and must be dispatched as before
+                ctx.op("listeners stopped and used again (disconnect + connect)")
+                for l in list(net.listeners):
+                    _, exc = call(l.stop)
+                    if exc is not None:
+                        ctx.violation("C10/unexpected-exception/%s@%s" % (type(exc).__name__, site(exc)), "listener.stop() raised %r" % (exc,))
+                ctx.probe("listeners-stopped-and-reused")
             elif op == "unsub-all-node":
                 # the application unsubscribes everything on one of a live node's own service ids
                 if w.nodes:
